@@ -27,6 +27,9 @@ use verif_harness::*;
 struct C16 {
     dah: Option<DataAvailabilityHeader>,
     header: Option<ExtendedHeader>,
+    /// what leopard made of the buffers of the last `row` / `befp` op (recomputed by every `run`, handed to the
+    /// model as the `obs=` word: the codec is a parameter of the model)
+    last_obs: Option<String>,
 }
 
 // ---------------------------------------------------------------------------------------------
@@ -346,8 +349,7 @@ impl C16 {
             let left: Vec<Vec<u8>> = raw.shares_half.iter().map(|s| s.data.clone()).collect();
             let right: Vec<Vec<u8>> = row.shares[w / 2..].iter().map(|s| s.to_vec()).collect();
             let mut emit = |idx: u64, side: u32, halves: &[Vec<u8>], tag: &str| {
-                let ext = oracle_row(side != 1, halves);
-                out.op(format!("row idx={idx} side={side} halves={} ext={ext}", hxl(halves)), tag, true);
+                out.op(format!("row idx={idx} side={side} halves={}", hxl(halves)), tag, true);
             };
             emit(idx as u64, 0, &left, "row/honest-left");
             emit(idx as u64, 1, &right, "row/honest-right");
@@ -528,13 +530,7 @@ impl C16 {
                 shares.push(RawBefpShare { data, proof: Some(proof.into()), proof_axis: paxis as i32 });
             }
             let befp_line = |hh: u64, height: u64, hash: &[u8], index: u64, ax: u32, shs: &[RawBefpShare]| {
-                // oracle: what leopard makes of the rebuilt axis
-                let rebuilt: Vec<Vec<u8>> = shs
-                    .iter()
-                    .map(|s| if s.proof.is_some() && s.data.len() == 512 + NS_SIZE { s.data[NS_SIZE..].to_vec() } else { vec![] })
-                    .collect();
-                let rec = oracle_befp(&rebuilt, w / 2);
-                let mut l = format!("befp hh={hh} height={height} hash={} index={index} axis={ax} rec={rec}", hx(hash));
+                let mut l = format!("befp hh={hh} height={height} hash={} index={index} axis={ax}", hx(hash));
                 for s in shs {
                     l.push(' ');
                     l.push_str(&befp_word(s));
@@ -774,11 +770,99 @@ impl C16 {
             let height = rng.range(1, 1_000_000);
             let lbi = if height == 1 { None } else { some_block_id(rng) };
             let eh = make_header(rng, "private", height, 1_700_000_000_000_000_000, AppVersionLatest(), lbi, &ordered, &set, &set, dah, &|_| true);
-            let bytes = eh.encode_vec();
+            let bytes = eh.clone().encode_vec();
             out.op(format!("eh bytes={}", hx(&bytes)), "eh/honest", true);
+            // `ehv`: ExtendedHeader::validate on a VALUE (what runs after the third-party conversions), compared
+            // with group E's field-level model; the line is the fixpoint of format -> parse -> format
+            let mut ehv = |out: &mut Emitter, h: &ExtendedHeader, tag: &str| {
+                let l = fmt_eh_full(h, "", false);
+                if let Some(h2) = parse_eh_full(&l, "") {
+                    out.op(format!("ehv {}", fmt_eh_full(&h2, "", false)), tag, true);
+                }
+            };
+            ehv(out, &eh, "ehv/honest");
+            // structured adversarial headers
+            {
+                use tendermint::block::CommitSig;
+                let rh = |rng: &mut Rng| tendermint::Hash::Sha256(rng.bytes(32).try_into().unwrap());
+                let mut m = eh.clone();
+                m.commit.height = (height + 1).try_into().unwrap();
+                ehv(out, &m, "ehv/commit-height");
+                for app in [0u64, 999, u64::MAX] {
+                    let mut m = eh.clone();
+                    m.header.version.app = app;
+                    ehv(out, &m, "ehv/app-version");
+                }
+                let mut m = eh.clone();
+                m.header.version.block = 10;
+                ehv(out, &m, "ehv/block-version");
+                let mut m = eh.clone();
+                m.header.data_hash = Some(rh(rng));
+                ehv(out, &m, "ehv/data-hash");
+                let mut m = eh.clone();
+                m.header.data_hash = None;
+                ehv(out, &m, "ehv/data-hash-none");
+                let mut m = eh.clone();
+                m.header.validators_hash = rh(rng);
+                ehv(out, &m, "ehv/validators-hash");
+                let mut m = eh.clone();
+                m.commit.block_id.hash = rh(rng);
+                ehv(out, &m, "ehv/commit-block-hash");
+                let mut m = eh.clone();
+                for s in m.commit.signatures.iter_mut() {
+                    *s = CommitSig::BlockIdFlagAbsent;
+                }
+                ehv(out, &m, "ehv/nobody-signed");
+                let mut m = eh.clone();
+                if let CommitSig::BlockIdFlagCommit { signature, .. } = &mut m.commit.signatures[0] {
+                    *signature = None;
+                }
+                ehv(out, &m, "ehv/entry-without-signature");
+                let mut m = eh.clone();
+                m.commit.signatures.pop();
+                ehv(out, &m, "ehv/one-entry-less");
+                let mut m = eh.clone();
+                m.commit.signatures.push(CommitSig::BlockIdFlagAbsent);
+                ehv(out, &m, "ehv/one-entry-more");
+                let mut m = eh.clone();
+                m.header.last_block_id = if height == 1 { some_block_id(rng) } else { None };
+                ehv(out, &m, "ehv/last-block-id");
+                let rows = m.dah.row_roots().to_vec();
+                let cols = m.dah.column_roots().to_vec();
+                let mut m = eh.clone();
+                m.dah = DataAvailabilityHeader::new_unchecked(rows.clone(), cols[..cols.len() - 1].to_vec());
+                ehv(out, &m, "ehv/dah-rows-ne-cols");
+                let mut m = eh.clone();
+                m.dah = DataAvailabilityHeader::new_unchecked(rows[..1].to_vec(), cols[..1].to_vec());
+                ehv(out, &m, "ehv/dah-width-1");
+                let mut m = eh.clone();
+                m.dah = DataAvailabilityHeader::new_unchecked(vec![], vec![]);
+                ehv(out, &m, "ehv/dah-empty");
+            }
+            // byte-level mutations of the honest encoding; when prost and the four third-party conversions still
+            // accept the bytes, the resulting VALUE is also given to the model (`ehv`)
+            let mut fuzz = |out: &mut Emitter, b: &[u8], tag: &str| {
+                out.op(format!("eh bytes={}", hx(b)), &format!("eh/{tag}"), true);
+                use celestia_proto::header::pb::ExtendedHeader as RawEh;
+                if let Ok(raw) = RawEh::decode(b) {
+                    let parts = (
+                        raw.header.and_then(|h| tendermint::block::Header::try_from(h).ok()),
+                        raw.commit.and_then(|c| tendermint::block::Commit::try_from(c).ok()),
+                        raw.validator_set.and_then(|v| tendermint::validator::Set::try_from(v).ok()),
+                        raw.dah.and_then(|d| DataAvailabilityHeader::try_from(d).ok()),
+                    );
+                    if let (Some(header), Some(commit), Some(validator_set), Some(dah)) = parts {
+                        let h = ExtendedHeader { header, commit, validator_set, dah };
+                        let l = fmt_eh_full(&h, "", false);
+                        if let Some(h2) = parse_eh_full(&l, "") {
+                            out.op(format!("ehv {}", fmt_eh_full(&h2, "", false)), &format!("ehv/bytes-{tag}"), true);
+                        }
+                    }
+                }
+            };
             for _ in 0..12 {
                 let (b, tag) = mutate_bytes(rng, &bytes);
-                out.op(format!("eh bytes={}", hx(&b)), &format!("eh/{tag}"), true);
+                fuzz(out, &b, tag);
             }
             // several mutations at once
             for _ in 0..6 {
@@ -786,7 +870,71 @@ impl C16 {
                 for _ in 0..rng.usize(2, 6) {
                     b = mutate_bytes(rng, &b).0;
                 }
-                out.op(format!("eh bytes={}", hx(&b)), "eh/multi-mutation", true);
+                fuzz(out, &b, "multi-mutation");
+            }
+        }
+    }
+
+    /// byte-level fuzzing of the shwap containers: honest protobuf encodings mutated, handed to the real
+    /// `decode` (+ `verify`) as bytes (`xbytes`, outcome `nopanic`), and — when prost still accepts them — as the
+    /// raw structure prost produced to the structured ops that the model follows class by class
+    fn gen_container_bytes(&mut self, rng: &mut Rng, w: usize, n: usize, out: &mut Emitter) {
+        let (eds, nss) = gen_eds(rng, w);
+        let dah = DataAvailabilityHeader::from_eds(&eds);
+        out.op(dah_op(&dah), &format!("dah/w{w}-bytes"), true);
+        for _ in 0..n {
+            let r = rng.below(w as u64) as u16;
+            let c = rng.below(w as u64) as u16;
+            // sample
+            let s = Sample::new(r, c, if rng.bool() { AxisType::Row } else { AxisType::Col }, &eds).unwrap();
+            let bytes = RawSample::from(s).encode_to_vec();
+            for _ in 0..4 {
+                let (b, tag) = mutate_bytes(rng, &bytes);
+                out.op(format!("xbytes kind=sample r={r} c={c} bytes={}", hx(&b)), &format!("xbytes/sample-{tag}"), true);
+                if let Ok(raw) = RawSample::decode(&b[..]) {
+                    let share = raw.share.as_ref().map(|s| hx(&s.data)).unwrap_or_else(|| "none".into());
+                    let (hp, pf) = match &raw.proof {
+                        Some(p) => (1, raw_proof_fields(p)),
+                        None => (0, raw_proof_fields(&RawProof::default())),
+                    };
+                    out.op(format!("sample r={r} c={c} axis={} share={share} hasproof={hp} {pf}", raw.proof_type as u32), &format!("sample/bytes-{tag}"), true);
+                }
+            }
+            // row
+            let row = Row::new(r, &eds).unwrap();
+            let bytes = RawRow::from(row).encode_to_vec();
+            for _ in 0..3 {
+                let (b, tag) = mutate_bytes(rng, &bytes);
+                out.op(format!("xbytes kind=row r={r} c=0 bytes={}", hx(&b)), &format!("xbytes/row-{tag}"), true);
+                if let Ok(raw) = RawRow::decode(&b[..]) {
+                    let halves: Vec<Vec<u8>> = raw.shares_half.iter().map(|s| s.data.clone()).collect();
+                    out.op(format!("row idx={r} side={} halves={}", raw.half_side as u32, hxl(&halves)), &format!("row/bytes-{tag}"), true);
+                }
+            }
+            // row namespace data
+            let ns = *rng.pick(&nss);
+            if let Ok(rows) = eds.get_namespace_data(ns, &dah, HEIGHT) {
+                if let Some((id, rnd)) = rows.first() {
+                    let bytes = RawRnd::from(rnd.clone()).encode_to_vec();
+                    for _ in 0..3 {
+                        let (b, tag) = mutate_bytes(rng, &bytes);
+                        out.op(
+                            format!("xbytes kind=rnd r={} c=0 ns={} bytes={}", id.row_index(), hx(ns.as_bytes()), hx(&b)),
+                            &format!("xbytes/rnd-{tag}"),
+                            true,
+                        );
+                        if let Ok(raw) = RawRnd::decode(&b[..]) {
+                            let sh: Vec<Vec<u8>> = raw.shares.iter().map(|s| s.data.clone()).collect();
+                            let hp = raw.proof.is_some() as u8;
+                            let pf = raw.proof.clone().unwrap_or_default();
+                            out.op(
+                                format!("rnd row={} ns={} shares={} hasproof={hp} {}", id.row_index(), hx(ns.as_bytes()), hxl(&sh), raw_proof_fields(&pf)),
+                                &format!("rnd/bytes-{tag}"),
+                                true,
+                            );
+                        }
+                    }
+                }
             }
         }
     }
@@ -846,7 +994,7 @@ impl Prop for C16 {
         "C16"
     }
     fn rule(&self) -> &'static str {
-        "Honest values (samples, rows, row-namespace data, namespace data, bad-encoding fraud proofs, header-ex frames) of random \
+        "Honest values (samples, rows, row-namespace data, namespace data, bad-encoding fraud proofs, header-ex frames, extended headers) of random \
          namespace-sorted squares extended with the real leopard codec, encoded, then mutated structurally (huge/short/reordered/\
          random/min>max sibling lists, extreme and truncated i64 indices, empty and mismatched halves, missing fields, wrong axis, \
          wrong lengths, swapped fraud-proof positions) and at byte level (bit flips, truncation, insertion, garbage); every op is run \
@@ -864,8 +1012,15 @@ impl Prop for C16 {
         self.gen_framing(rng, if tier == Tier::Thorough { 200 } else { 30 }, out);
         self.gen_shrex(rng, if tier == Tier::Thorough { 150 } else { 25 }, out);
         self.gen_headers(rng, if tier == Tier::Thorough { 40 } else { 6 }, out);
+        for w in [4usize, 8] {
+            self.gen_container_bytes(rng, w, if tier == Tier::Thorough { 40 } else { 6 }, out);
+        }
+    }
+    fn observed(&mut self, _line: &str) -> Option<String> {
+        self.last_obs.take()
     }
     fn run(&mut self, line: &str) -> String {
+        self.last_obs = None;
         match opname(line) {
             "reset" => {
                 self.dah = None;
@@ -918,6 +1073,8 @@ impl Prop for C16 {
                 let (Some(idx), Some(side), Some(halves)) = (arg_u64(line, "idx"), arg_u64(line, "side"), arg(line, "halves").and_then(unhxl)) else {
                     return "bad-op".into();
                 };
+                // leopard as an oracle for the model (the prost accessor maps every unknown side to Left)
+                self.last_obs = Some(oracle_row(side as u32 as i32 != 1, &halves));
                 let raw = RawRow { shares_half: halves.into_iter().map(|data| RawShare { data }).collect(), half_side: side as u32 as i32 };
                 let id = RowId::new(idx as u16, HEIGHT).unwrap();
                 two_stage(Row::from_raw(id, raw), |r| r.verify(id, dah))
@@ -960,6 +1117,13 @@ impl Prop for C16 {
                 let Some(shares) = all_args(line, "sh").into_iter().map(befp_unword).collect::<Option<Vec<_>>>() else {
                     return "bad-op".into();
                 };
+                {
+                    let rebuilt: Vec<Vec<u8>> = shares
+                        .iter()
+                        .map(|s| if s.proof.is_some() && s.data.len() == 512 + NS_SIZE { s.data[NS_SIZE..].to_vec() } else { vec![] })
+                        .collect();
+                    self.last_obs = Some(oracle_befp(&rebuilt, dah.row_roots().len() / 2));
+                }
                 let raw = RawBefp { header_hash: hash, height, shares, index: index as u32, axis: axis as u32 as i32 };
                 let header = self.header.get_or_insert_with(|| ExtendedHeaderGenerator::new_from_height(HEIGHT).next());
                 let Ok(h) = tendermint::block::Height::try_from(hh) else { return "bad-op".into() };
@@ -996,6 +1160,33 @@ impl Prop for C16 {
                 let _ = ExtendedHeader::decode_and_validate(&b);
                 "nopanic".into()
             }
+            "ehv" => match consensus_e::parse_eh_full(line, "") {
+                Some(eh) => consensus_e::validate_str(&eh),
+                None => "bad-op".into(),
+            },
+            "xbytes" => {
+                let Some(dah) = &self.dah else { return "no-dah".into() };
+                let (Some(kind), Some(r), Some(c), Some(b)) = (arg(line, "kind"), arg_u64(line, "r"), arg_u64(line, "c"), arg_hex(line, "bytes")) else {
+                    return "bad-op".into();
+                };
+                match kind {
+                    "sample" => {
+                        let id = SampleId::new(r as u16, c as u16, HEIGHT).unwrap();
+                        let _ = Sample::decode(id, &b).and_then(|s| s.verify(id, dah));
+                    }
+                    "row" => {
+                        let id = RowId::new(r as u16, HEIGHT).unwrap();
+                        let _ = Row::decode(id, &b).and_then(|x| x.verify(id, dah));
+                    }
+                    "rnd" => {
+                        let Some(ns) = arg_hex(line, "ns").and_then(|n| Namespace::from_raw(&n).ok()) else { return "bad-op".into() };
+                        let id = RowNamespaceDataId::new(ns, r as u16, HEIGHT).unwrap();
+                        let _ = RowNamespaceData::decode(id, &b).and_then(|x| x.verify(id, dah));
+                    }
+                    _ => return "bad-op".into(),
+                }
+                "nopanic".into()
+            }
             "hxresp" => {
                 let Some(b) = arg_hex(line, "bytes") else { return "bad-op".into() };
                 let rt = tokio::runtime::Builder::new_current_thread().enable_time().build().unwrap();
@@ -1020,5 +1211,5 @@ fn some_block_id(rng: &mut Rng) -> Option<tendermint::block::Id> {
 }
 
 fn main() {
-    main_for(C16 { dah: None, header: None });
+    main_for(C16 { dah: None, header: None, last_obs: None });
 }
